@@ -64,6 +64,8 @@ def base(rng, run):
     cfg = {"callers": nc, "split_seed": rng.getrandbits(48) | 1}
     if rng.random() < 0.15:
         cfg["max_read"] = rng.choice([1, 2, 3, 7])
+    if rng.random() < 0.15:
+        cfg["max_write"] = rng.choice([1, 3, 8, 20])
     return {"run": run, "cfg": cfg, "batches": rand_batches(rng, nc, rng.randint(6, 22), allow_drop=rng.random() < 0.3)}
 
 
@@ -135,7 +137,7 @@ def art(rng, run):
         sizes += [rng.randint(0, 40)]
     pic = {"embedded": rng.choice(sizes), "file": rng.choice(sizes), "limit": limit,
            "mime": list(rng.choice([b"image/jpeg", b"image/png", b"x y"])) if rng.random() < 0.6 else None,
-           "embedded_ack": rng.choice([0, 0, 0, 0, 5, 5, 50, 2, 4]), "file_ack": rng.choice([0, 0, 0, 0, 50, 5, 2])}
+           "embedded_ack": rng.choice([0, 0, 0, 0, 5, 5, 50, 2, 4]), "file_ack": rng.choice([0, 0, 0, 0, 50, 5, 2]), "vary": rng.random() < 0.5}
     cfg = {"callers": nc, "split_seed": rng.getrandbits(48) | 1, "pic": pic}
     if rng.random() < 0.2:
         cfg["max_read"] = rng.choice([1, 5, 100, 4096])
